@@ -386,23 +386,10 @@ fn c01_net(rng: &mut Rng, obj: Obj, with_block: bool, softmax: bool) -> NetCfg {
     o.min_depth = 2;
     let mut cfg = random_net(rng, &o);
     if with_block {
-        // insert a shape-preserving block at a random position before the final dense layer
-        let shapes = cfg.shapes().unwrap();
-        let pos = rng.range(0, cfg.layers.len() - 1);
-        let cur = if pos == 0 { cfg.input } else { shapes[pos - 1].1 };
-        // a block on a flat shape must follow a flat output; on a spatial shape a spatial output
-        let len = rng.range(1, 2);
-        let body = preserving_body(rng, cur, len, &ELEMENTWISE, false);
-        let block = LCfg::Feedback {
-            body,
-            loops: rng.range(1, 3),
-            inskips: false,
-            outskips: false,
-            acc: Acc::Mean,
-        };
-        cfg.layers.insert(pos, block);
-        if cfg.shapes().is_err() {
-            cfg.layers.remove(pos);
+        // one or (every third time) two shape-preserving blocks before the final dense layer
+        let blocks = if rng.chance(0.35) { 2 } else { 1 };
+        for _ in 0..blocks {
+            insert_block(rng, &mut cfg, 3);
         }
     }
     cfg
@@ -599,7 +586,7 @@ impl Monitor for C01 {
         vec![("layers", tier.pick(97_200, 1_555_200)), ("networks", tier.pick(18_900, 302_400))]
     }
     fn rule(&self) -> &'static str {
-        "layers: case i -> (kind in conv/deconv/dense/pool, activation, geometry from the covering walk over the 108 (kernel 1..3, stride 1..3, padding 0..3, dilation 1..3) tuples per axis, channels/filters 1..3, extents up to 7, repetition-free weights/inputs/upstream gradient in [-1.5,1.5]); the layer's public backward(u, x, pre) is compared entry by entry with the forward-mode dual-number derivative of <u, post(x; theta)> w.r.t. every input element and every weight/bias/kernel element (|g - d| <= 16 * de + 1e-5 * m: de = first-order bound on the deviation of a correct f32 evaluation incl. the effect of forward rounding on the derivative factors, m = the same derivative on absolute values); the input gradient must have the input's shape. networks: depth 2..5, any mix of dense/conv/deconv/pool that fits, every third with a feedback block (1..3 loops, no skips; gradients compared per unrolled copy), all seven objectives; gradients taken from the hooked Network::backward or (every third case) from the parameter change of one learn() step with plain SGD; oracle = derivative of the objective value for AE/MSE/BCE/KL and for soft-max + cross-entropy, of <objective gradient, output> for MAE/RMSE/CE. Instances within 1e-3 of a ReLU kink / pool tie or with saturated sigmoid (pre > 6) are regenerated. Distinct = distinct configuration descriptors."
+        "layers: case i -> (kind in conv/deconv/dense/pool, activation, geometry from the covering walk over the 108 (kernel 1..3, stride 1..3, padding 0..3, dilation 1..3) tuples per axis, channels/filters 1..3, extents up to 7, repetition-free weights/inputs/upstream gradient in [-1.5,1.5]); the layer's public backward(u, x, pre) is compared entry by entry with the forward-mode dual-number derivative of <u, post(x; theta)> w.r.t. every input element and every weight/bias/kernel element (|g - d| <= 16 * de + 1e-5 * m: de = first-order bound on the deviation of a correct f32 evaluation incl. the effect of forward rounding on the derivative factors, m = the same derivative on absolute values); the input gradient must have the input's shape. networks: depth 2..5, any mix of dense/conv/deconv/pool that fits, every third with one or two feedback blocks (1..3 loops, no skips; gradients compared per unrolled copy), all seven objectives; gradients taken from the hooked Network::backward or (every third case) from the parameter change of one learn() step with plain SGD; oracle = derivative of the objective value for AE/MSE/BCE/KL and for soft-max + cross-entropy, of <objective gradient, output> for MAE/RMSE/CE. Instances within 1e-3 of a ReLU kink / pool tie or with saturated sigmoid (pre > 6) are regenerated. Distinct = distinct configuration descriptors."
     }
     fn assumptions(&self) -> Vec<&'static str> {
         vec![
